@@ -753,7 +753,7 @@ pub fn fidelity_child() -> i32 {
     }
     // a process party has its own idea of the time too (a warm party: later than its cold twin)
     let warmed = party.steps.iter().any(|s| s.mode == Mode::Warm) as u64;
-    crate::seams::enter_party_clock(party_time_ns(&party.keys) + warmed * 3_600_000_000_000);
+    crate::seams::enter_party_clock(party_time_ns(&party.keys) + warmed * 3_600_000_000_000, party_clock_step_ns(&party.keys));
     let outs = run_steps(&w.program, &party.steps);
     crate::seams::leave_party_clock();
     crate::ALLOC_LIMIT.store(0, std::sync::atomic::Ordering::SeqCst);
